@@ -41,6 +41,7 @@ def main(argv=None):
         ctx.stats['numeric_updates_normalised_by_the_loader'] = prog.updates_normalised
         ctx.stats['constant_first_comparisons_normalised_by_the_loader'] = prog.comparisons_normalised
         ctx.stats['else_blocks_hoisted_after_a_leaving_branch_by_the_loader'] = prog.else_hoisted
+        ctx.stats['annotated_assignments_stripped_by_the_loader'] = prog.annotations_stripped
         ctx.stats['assignment_expressions_hoisted_by_the_loader'] = prog.walrus_hoisted
         ctx.stats['conditional_assignments_and_returns_expanded_by_the_loader'] = prog.conditionals_expanded
         ctx.stats['empty_container_calls_normalised_by_the_loader'] = prog.containers_normalised
